@@ -661,7 +661,7 @@ def mirror_matrix(repo: Repo) -> RuleRun:
                 if isinstance(st.value, ast.Call) and (attr_chain(st.value.func) or "").split(".")[-1] in ("asarray", "array") and st.value.args and isinstance(st.value.args[0], ast.Name) and st.value.args[0].id in env:
                     env[st.targets[0].id] = env[st.value.args[0].id]
                 else:
-                    raise
+                    env.pop(st.targets[0].id, None)  # not a polynomial: unusable if an entry refers to it (reported then)
         elif isinstance(st, ast.Assign) and len(st.targets) == 1 and isinstance(st.targets[0], ast.Tuple) and isinstance(st.value, ast.Name) and isinstance(env.get(st.value.id), list):
             for t, v in zip(st.targets[0].elts, env[st.value.id]):
                 if isinstance(t, ast.Name):
